@@ -289,8 +289,8 @@ pub fn run(cfg: &Cfg, rep: &mut Report) {
         });
     }
     // (i'') boundary-value modules (hundreds of parameters / functions, storage-class pairs ...)
-    run_stage(cfg, rep, "scale", cfg.n(crate::scale::N_VARIANTS * 12, crate::scale::N_VARIANTS * 300), |idx, rng, r| {
-        let variant = [0u64, 6, 8, 9, 10, 2, 7, 5, 1, 9, 10, 11][(idx % 12) as usize];
+    run_stage(cfg, rep, "scale", cfg.n(crate::scale::N_VARIANTS * 40, crate::scale::N_VARIANTS * 600), |idx, rng, r| {
+        let variant = [0u64, 6, 8, 9, 10, 2, 7, 5, 1, 9, 10, 11, 6, 6][(idx % 14) as usize];
         let (label, insts) = crate::scale::scale_module(rng, variant);
         let rp = || crate::util::replay_ref(cfg, "scale", idx).set("label", label.clone());
         if insts.len() > 3000 {
